@@ -3,7 +3,7 @@
 Specification: spec/proto/OFP.tla (ProcMsg / Consume / Complete / RFinal; formulas C01_SameId, C01_ExactTopics,
 C01_SameOrigin evaluated at every delivery).  See vlib/protocheck.py for the four stages.
 """
-from . import common, topos
+from . import common, topos, simzmq
 from .common import Report
 from .protocheck import Engine, replay_witness, binding_selftest
 
@@ -23,12 +23,15 @@ def scenarios(quick):
                (T.tee_rejoin2(maxseq=1), 'SpecPrompt', {}),
                (T.tee_rejoin2(maxseq=1, skipA=(0,), skip=(), slowB=True, explicit_b=True), 'SpecPrompt', dict(lq=10)),
                (T.hidden(maxseq=1), 'SpecPrompt', {}),
-               (T.join2(maxseq=2), 'SpecPrompt', {})]),
+               (T.join2(maxseq=2), 'SpecPrompt', {}),
+               (T.join_timeout(maxseq=1, ticks=2), 'SpecPrompt', dict(max_faults=1, fault_kinds=['stall'], victims=['Y']))]),
         # design mutations: (topology, scheduling, mutations, bounds)
         mut=[(T.tee_rejoin2(maxseq=2), 'SpecZL', ['C01a', 'id_not_carried'], {}),
              (T.tee_rejoin2(maxseq=2, explicit_b=True), 'SpecZL', ['no_inval'], {}),
              (T.chain2(maxseq=1), 'SpecPrompt', ['partial_ok'], {}),
-             (T.tee_rejoin2(maxseq=1, skipA=(0,), skip=(), slowB=True, explicit_b=True), 'SpecPrompt', ['C01b'], dict(lq=10))] +
+             (T.tee_rejoin2(maxseq=1, skipA=(0,), skip=(), slowB=True, explicit_b=True), 'SpecPrompt', ['C01b'], dict(lq=10)),
+             # a join with sources_timeout whose one source falls silent: the ids advance through the sends made without input
+             (T.join_timeout(maxseq=1, ticks=2), 'SpecPrompt', ['stale_kept'], dict(max_faults=1, fault_kinds=['stall'], victims=['Y']))] +
             ([] if quick else [(T.tee_rejoin_multi(maxseq=2), 'SpecZL', ['inval_complete_only'], dict(max_faults=1, fault_kinds=['drop']))]),
         # conformance replay: (topology, scheduling, number of behaviours, depth)
         conf=[(T.tee_rejoin2(maxseq=2), 'SpecPrompt', 12 if quick else 150, 200),
@@ -68,20 +71,79 @@ def run(ctx):
     sc = scenarios(ctx.quick)
     binding_selftest(rep, topos.tee_rejoin2(maxseq=2), ctx)
     for topo, spec, bounds in sc['mc']:
-        eng.model_check(topo, spec, invariants=INV, bounds=bounds, timeout=900 if ctx.quick else 3000)
+        bounds = dict(bounds)
+        fk = {k: bounds.pop(k) for k in ('max_faults', 'fault_kinds', 'victims') if k in bounds}
+        eng.model_check(topo, spec, invariants=INV, bounds=bounds, timeout=900 if ctx.quick else 3000, **fk)
     for topo, spec, muts, bounds in sc['mut']:
         bounds = dict(bounds)
         fk = {k: bounds.pop(k) for k in ('max_faults', 'fault_kinds') if k in bounds}
-        eng.mutation_schedules(topo, spec, muts, invariant='C01', bounds=bounds, timeout=600, victims=topo.names if fk else (), **fk)
+        victims = bounds.pop('victims', topo.names if fk else ())
+        eng.mutation_schedules(topo, spec, muts, invariant='C01', bounds=bounds, timeout=600, victims=victims, **fk)
     eng.stored_schedules('C01_')
     for topo, spec, num, depth in sc['conf']:
         eng.conformance(topo, spec, num, depth)
+    # sources_timeout: a stalled source, process({}) calls in between, then the source comes back
+    eng.conformance(topos.join_timeout(maxseq=3, ticks=2), 'SpecPrompt', 8 if ctx.quick else 120, 300, max_faults=1,
+                    fault_kinds=['stall'], victims=['Y'])
     eng.cover(topos.join2(maxseq=0), 'SpecPrompt', max_paths=150 if ctx.quick else None)
     if not ctx.quick:
         eng.cover(topos.tee_rejoin2(maxseq=1), 'SpecZL', max_paths=6000)
     for topo, n, steps, pt, pd in sc['rand']:
         eng.random_runs(topo, n, steps, p_timeout=pt, p_drop=pd, tag='rand', validate=3 if ctx.quick else 25)
+
+    # a join with sources_timeout: one source falls silent for a while (the join keeps sending what process({}) returns), then
+    # comes back - the frames the join had buffered from the other source carry an id that is long past
+    def silence(rng, pipe):
+        a = rng.randrange(20, 120)
+        return [(a, lambda p: p.stall('Y')), (a + rng.randrange(200, 500), lambda p: p.resume('Y'))]
+    eng.random_runs(topos.join_timeout(maxseq=12, ticks=3), 6 if ctx.quick else 100, 2500, p_timeout=0.04, faults=silence,
+                    tag='silent-source', pipekw=dict(local_clocks=False))
+    partial_publish_kills(eng, rep, topos.chain2(maxseq=6, conn_ticks=5), 'S', 'K', 6 if ctx.quick else 60)
     return rep.finish()
+
+
+def partial_publish_kills(eng, rep, topo, pub, con, n):
+    """crash points inside one publish: the publisher dies when 1 .. m-1 of the m messages of a multi-topic frame set have reached
+    the consumer (the rest is lost with it), comes back on the same address and is asked for that id again"""
+    from .proto import SimPipeline
+    from .protocheck import run_schedule, finish_prompt, judge
+    c = (con, 1)
+    for k in range(n):
+        rng = common.rng(eng.ctx, f'{topo.name}/partial/{k}')
+        pipe = SimPipeline(topo)
+        w = pipe.world
+        try:
+            pipe.start()
+            want_frame, j = 1 + k % 3, 1 + (k // 3) % 2      # which frame set, how many of its messages get through
+            for _ in range(3000):                         # run promptly, but hold back the deliveries of the chosen frame set
+                acts = [a for a in pipe.enabled() if a[0] not in ('timeout',)] or pipe.enabled()
+                if not acts:
+                    break
+                ls = [l for l in w.conn_links(c, 'pubsub') if l.queue]
+                mids = [simzmq.hdr(m)[1].get('mid', -1) for l in ls for m in l.queue]
+                if mids.count(want_frame) >= 3:
+                    break
+                pipe.do(rng.choice(acts))
+            else:
+                continue
+            l = next(l for l in w.conn_links(c, 'pubsub') if l.queue)
+            while l.queue and simzmq.hdr(l.queue[0])[1].get('mid', -1) != want_frame:
+                pipe.do(('dpub', l))
+            for _ in range(j):
+                if l.queue:
+                    pipe.do(('dpub', l))
+            t = pipe.task(con)
+            if t is not None and t.enabled_action() == 'run':
+                pipe.do(('run', t))                       # the consumer takes what has arrived
+            pipe.kill(pub, False)                         # the publisher dies, the rest of the frame set with it
+            pipe.restart(pub)
+            finish_prompt(pipe, rng, 1500)
+            eng.judge_pipe(topo, pipe, {'kind': 'trace', 'topo': topo.name, 'topo_def': topo.to_dict(), 'seed': eng.ctx.seed,
+                                        'origin': f'{pub} killed after {j} message(s) of frame set {want_frame} reached {con}, restarted ({k})',
+                                        'trace': [list(t_) for t_ in w.trace]})
+        finally:
+            pipe.close()
+    print(f'  [faults] {topo.name}: {n} kills inside a publish', flush=True)
 
 
 def replay(ctx):
